@@ -135,7 +135,8 @@ func finish(run *PropRun) int {
 				switch {
 				case oc == "pass":
 					tracesValidated++
-				case oc == "":
+				case oc == "" || strings.HasPrefix(oc, "abort:"):
+					// not realisable natively (e.g. an abstract key attribute the library cannot produce)
 				default:
 					traceMismatch++
 					run.Inconclusive = append(run.Inconclusive, fmt.Sprintf("sampled path of %s does not agree natively: %s", j.rf.Harness, oc))
